@@ -442,10 +442,10 @@ impl TDigestMut {
         }
 
         let mut bytes = SketchBytes::with_capacity(total_size);
-        bytes.write_u8(match self.total_weight() {
-            0 => PREAMBLE_LONGS_EMPTY_OR_SINGLE,
-            1 => PREAMBLE_LONGS_EMPTY_OR_SINGLE,
-            _ => PREAMBLE_LONGS_MULTIPLE,
+        bytes.write_u8(if self.is_empty() || self.is_single_value() {
+            PREAMBLE_LONGS_EMPTY_OR_SINGLE
+        } else {
+            PREAMBLE_LONGS_MULTIPLE
         });
         bytes.write_u8(SERIAL_VERSION);
         bytes.write_u8(Family::TDIGEST.id);
@@ -753,8 +753,16 @@ impl TDigestMut {
         }
     }
 
+    /// Whether the single-value form can stand for this (compressed) digest: it stores one number,
+    /// which must be the one sample, min and max at once. A deserialized image may hold a single
+    /// unit centroid with a different min or max; that one is written in the general form.
     fn is_single_value(&self) -> bool {
         self.total_weight() == 1
+            && self.min.to_bits() == self.max.to_bits()
+            && self
+                .centroids
+                .first()
+                .is_none_or(|c| c.mean.to_bits() == self.min.to_bits())
     }
 
     /// Process buffered values and merge centroids if needed.
